@@ -136,3 +136,100 @@ Definition check_real (c : real_case) : bool :=
 Definition window_case := (Z * Z * Z * bool)%type.
 Definition check_window (c : window_case) : bool :=
   match c with (e, i, t, b) => Bool.eqb (check_effective e i t) b end.
+
+(* ---- registries of scripted lints, filter observations ---- *)
+Definition sregistry := registry sobj unit unit.
+
+Definition plain_lint (n s : bytes) : lint sobj unit unit :=
+  slint (mkScript (mkMeta n [] [] s 0 0) NewOk CfgNone AppTrue (ExeRes 3 [])).
+
+Definition reg_of (entries : list (kind * bytes * bytes)) : sregistry :=
+  fold_left (register_op sobj unit unit)
+            (map (fun e => match e with (k, n, s) => (k, Some (Some (plain_lint n s))) end) entries)
+            (new_registry sobj unit unit tt).
+
+Inductive fobs :=
+| FSame                                              (* the receiver itself *)
+| FOk (cert ocsp crl : list bytes) (srcs : list bytes) (* names per kind in execution order; source set, sorted *)
+| FUnknown (n : bytes)
+| FExcl
+| FOther.
+
+Definition fproject (x : option sregistry + filter_error) : fobs :=
+  match x with
+  | inl None => FSame
+  | inl (Some r) => FOk (map name_of (lints_of _ _ _ KCert r)) (map name_of (lints_of _ _ _ KOcsp r))
+                        (map name_of (lints_of _ _ _ KCrl r)) (isort (sources _ _ _ r))
+  | inr (FUnknownName n) => FUnknown n
+  | inr FExclusive => FExcl
+  | inr _ => FOther
+  end.
+
+Definition blist_eqb := list_eqb beqb.
+
+Definition fobs_eqb (a b : fobs) : bool :=
+  match a, b with
+  | FSame, FSame | FExcl, FExcl | FOther, FOther => true
+  | FUnknown n, FUnknown n' => beqb n n'
+  | FOk a1 a2 a3 a4, FOk b1 b2 b3 b4 => blist_eqb a1 b1 && blist_eqb a2 b2 && blist_eqb a3 b3 && blist_eqb a4 b4
+  | _, _ => false
+  end.
+
+Definition filter_case := (filter_opts * fobs)%type.
+Definition check_filter (r : sregistry) (c : filter_case) : bool :=
+  fobs_eqb (fproject (filter_registry _ _ _ r (fst c))) (snd c).
+
+(* registration histories: ops and the observed tables after them *)
+Inductive rop := RLint (k : kind) (n s : bytes) | RNil (k : kind) | RNilPtr (k : kind).
+Definition rop_op (o : rop) : kind * option (option (lint sobj unit unit)) :=
+  match o with
+  | RLint k n s => (k, Some (Some (plain_lint n s)))
+  | RNil k => (k, None)
+  | RNilPtr k => (k, Some None)
+  end.
+
+(* error codes: 0 ok, 1 nil lint, 2 nil ptr, 3 empty name, 4 duplicate *)
+Definition reg_code (x : sregistry + reg_error) : N :=
+  match x with inl _ => 0 | inr ErrNilLint => 1 | inr ErrNilLintPtr => 2 | inr ErrEmptyName => 3 | inr (ErrDuplicate _) => 4 end%N.
+
+Fixpoint run_rops (r : sregistry) (ops : list rop) : sregistry * list N :=
+  match ops with
+  | [] => (r, [])
+  | o :: rest =>
+    let (k, l) := rop_op o in
+    let x := register _ _ _ k r l in
+    let r' := match x with inl r' => r' | inr _ => r end in
+    let (rf, codes) := run_rops r' rest in (rf, reg_code x :: codes)
+  end.
+
+(* observed: error codes, and per kind (cert, ocsp, crl): order, sorted names, Names(), sources *)
+Definition tables_obs := (list bytes * list bytes * list bytes)%type.   (* order, lintNames, sources(sorted) *)
+Definition table_of (k : kind) (r : sregistry) : tables_obs :=
+  (map name_of (lints_of _ _ _ k r), lk_names (tbl _ _ _ k r), isort (lk_sources (tbl _ _ _ k r))).
+Definition tables_eqb (a b : tables_obs) : bool :=
+  match a, b with (a1, a2, a3), (b1, b2, b3) => blist_eqb a1 b1 && blist_eqb a2 b2 && blist_eqb a3 b3 end.
+
+Definition hist_case := (list rop * (list N * tables_obs * tables_obs * tables_obs * list bytes))%type.
+Definition check_hist (c : hist_case) : bool :=
+  match c with
+  | (ops, (codes, tc, to, tl, nms)) =>
+    let (r, cs) := run_rops (new_registry _ _ _ tt) ops in
+    nlist_eqb cs codes && tables_eqb (table_of KCert r) tc && tables_eqb (table_of KOcsp r) to &&
+    tables_eqb (table_of KCrl r) tl && blist_eqb (names _ _ _ r) nms
+  end.
+
+(* ---- filtered runs of scripted registries (C07) ---- *)
+Definition sreg_of_scripts (k : kind) (ss : list script) : sregistry :=
+  fold_left (register_op sobj unit unit) (map (fun s => (k, Some (Some (slint s)))) ss) (new_registry sobj unit unit tt).
+
+Definition filtered_case := (kind * list script * filter_opts * sobj * rs_obs)%type.
+Definition check_filtered (c : filtered_case) : bool :=
+  match c with
+  | (k, ss, fo, o, ob) =>
+    match filter_registry _ _ _ (sreg_of_scripts k ss) fo with
+    | inl (Some r') =>
+      rs_obs_eqb (rs_project (lint_all sobj unit unit o_server_auth o_email o_cs sdate k (lints_of _ _ _ k r') tt o)) ob
+    | inl None => rs_obs_eqb (rs_project (slint_all k ss o)) ob
+    | inr _ => false
+    end
+  end.
